@@ -251,6 +251,9 @@ pub async fn dns_stub(names: HashMap<String, Vec<[u8; 4]>>) -> (u16, tokio::task
     dns_stub_shared(Arc::new(Mutex::new(names)), 300).await
 }
 
+/// AAAA records served by every stub of this process (name -> addresses); A-only names are simply absent.
+pub static AAAA_ZONE: Mutex<Vec<(String, Vec<[u8; 16]>)>> = Mutex::new(vec![]);
+
 /// The same with a zone that can change while the stub runs, and a chosen record TTL.
 pub async fn dns_stub_shared(names: Arc<Mutex<HashMap<String, Vec<[u8; 4]>>>>, ttl: u32) -> (u16, tokio::task::JoinHandle<()>, Arc<Mutex<Vec<String>>>) {
     let sock = tokio::net::UdpSocket::bind("127.0.0.1:0").await.expect("bind dns stub");
@@ -287,17 +290,25 @@ pub async fn dns_stub_shared(names: Arc<Mutex<HashMap<String, Vec<[u8; 4]>>>>, t
             resp.extend_from_slice(&q[0..2]);
             let known = names.lock().unwrap().get(&name).cloned();
             let known = known.as_ref();
-            let rcode = if known.is_some() { 0u8 } else { 3u8 };
+            let known6: Option<Vec<[u8; 16]>> = AAAA_ZONE.lock().unwrap().iter().find(|(n, _)| *n == name).map(|(_, a)| a.clone());
+            let rcode = if known.is_some() || known6.is_some() { 0u8 } else { 3u8 };
             resp.extend_from_slice(&[0x84, rcode]); // QR, AA
             resp.extend_from_slice(&[0, 1]);
             let answers: Vec<[u8; 4]> = if qtype == 1 { known.cloned().unwrap_or_default() } else { vec![] };
-            resp.extend_from_slice(&(answers.len() as u16).to_be_bytes());
+            let answers6: Vec<[u8; 16]> = if qtype == 28 { known6.unwrap_or_default() } else { vec![] };
+            resp.extend_from_slice(&((answers.len() + answers6.len()) as u16).to_be_bytes());
             resp.extend_from_slice(&[0, 0, 0, 0]);
             resp.extend_from_slice(&q[12..qend]);
             for a in answers {
                 resp.extend_from_slice(&[0xc0, 0x0c, 0, 1, 0, 1]);
                 resp.extend_from_slice(&ttl.to_be_bytes());
                 resp.extend_from_slice(&[0, 4]);
+                resp.extend_from_slice(&a);
+            }
+            for a in answers6 {
+                resp.extend_from_slice(&[0xc0, 0x0c, 0, 28, 0, 1]);
+                resp.extend_from_slice(&ttl.to_be_bytes());
+                resp.extend_from_slice(&[0, 16]);
                 resp.extend_from_slice(&a);
             }
             let _ = sock.send_to(&resp, from).await;
@@ -404,6 +415,71 @@ async fn resolution_histories(rep: &mut Report, thorough: bool) {
     }
     rep.sample(json!({"history": hists[hists.len() / 2].iter().map(op_str).collect::<Vec<_>>()}));
     rep.sections.insert("resolution_histories".into(), json!({"depth": depth, "alphabet": alphabet.iter().map(op_str).collect::<Vec<_>>(), "histories_per_branch": hists.len()}));
+    stub.abort();
+}
+
+/// Names that resolve to IPv6 addresses of every shape (AAAA only, or A and AAAA): the address handed to the dialler is
+/// one of the name's addresses, as an address (an IPv4-mapped IPv6 answer may come back as the IPv4 address it maps).
+async fn v6_names(rep: &mut Report) {
+    let zone6: Vec<(&str, Vec<&str>, Vec<[u8; 4]>)> = vec![
+        ("six.test", vec!["::1"], vec![]),
+        ("compat.test", vec!["::127.0.0.5"], vec![]),
+        ("zero.test", vec!["::"], vec![]),
+        ("mapped.test", vec!["::ffff:127.0.0.6"], vec![]),
+        ("global6.test", vec!["2001:db8::7", "2001:db8::8"], vec![]),
+        ("dual.test", vec!["::2"], vec![[127, 0, 0, 9]]),
+        ("linklocal.test", vec!["fe80::1"], vec![]),
+    ];
+    {
+        let mut z = AAAA_ZONE.lock().unwrap();
+        z.clear();
+        for (n, a6, _) in &zone6 {
+            z.push((n.to_string(), a6.iter().map(|a| a.parse::<std::net::Ipv6Addr>().unwrap().octets()).collect()));
+        }
+    }
+    let mut a_zone = HashMap::new();
+    for (n, _, a4) in &zone6 {
+        if !a4.is_empty() {
+            a_zone.insert(n.to_string(), a4.clone());
+        }
+    }
+    let (dport, stub, _log) = dns_stub_shared(Arc::new(Mutex::new(a_zone)), 0).await;
+    if let Err(e) = set_custom_dns_servers(&[format!("127.0.0.1:{dport}")]).await {
+        rep.machinery(format!("cannot configure resolver: {e}"));
+        return;
+    }
+    let canon = |ip: IpAddr| -> IpAddr {
+        match ip {
+            IpAddr::V6(v) => v.to_ipv4_mapped().map(IpAddr::V4).unwrap_or(ip),
+            _ => ip,
+        }
+    };
+    for (name, a6, a4) in &zone6 {
+        let mut allowed: Vec<IpAddr> = a6.iter().map(|a| canon(a.parse::<IpAddr>().unwrap())).collect();
+        allowed.extend(a4.iter().map(|a| IpAddr::from(*a)));
+        // three requests each: miss, hit, hit (round robin over the cached list)
+        for round in 0..3 {
+            rep.case(Some(&format!("v6 name {name} round {round}")));
+            match real_timeout(12_000, resolve_host_with_cache(name, 4343)).await {
+                Some(Ok(sa)) => {
+                    if sa.port() != 4343 || !allowed.contains(&canon(sa.ip())) {
+                        rep.violation("C07:resolver-returns-address-the-host-does-not-own", &format!("request {} for {name}:4343 (AAAA {:?}, A {:?}) resolved to {sa}", round + 1, a6, a4.iter().map(|a| IpAddr::from(*a)).collect::<Vec<_>>()), json!({"engine": "IX", "family": "v6-names", "name": name}));
+                        break;
+                    }
+                }
+                Some(Err(e)) => {
+                    // a resolver that cannot use an address family is not this property's business; a wrong address is
+                    rep.observe(format!("v6 name {name}: resolution failed: {e}"));
+                    break;
+                }
+                None => {
+                    rep.violation("C07:resolution-blocks", &format!("v6 names: {name}"), json!({"engine": "IX", "family": "v6-names"}));
+                    break;
+                }
+            }
+        }
+    }
+    AAAA_ZONE.lock().unwrap().clear();
     stub.abort();
 }
 
@@ -831,8 +907,9 @@ pub fn run(tier: Tier) -> i32 {
     rt.block_on(async {
         resolution_histories(&mut rep, thorough).await;
         moving_hosts(&mut rep, thorough).await;
+        v6_names(&mut rep).await;
         dial_cases(&mut rep).await;
     });
     drop(rt);
-    rep.finish("IX/DET: destinations {5 IPv4, 5 IPv6} x boundary ports, every domain length 1..=256 (ASCII and multi-byte), almost-addresses, port sweep (thorough: all 65536 ports x 3 address types) through the real Client::create_proxy_stream and the real server-side parser; destination header cut into <=3 frames at every position; UDP associations: the target named in the initial request written by the real Client::create_udp_proxy (in-memory dialer seam) for 17 (23) address shapes x boundary ports; BX: every resolve/age/clear history up to depth 3 (4) on both resolver branches, plus every history of depth 5 (6) over {resolve gamma, resolve delta, gamma's DNS answer changes, age, clear} (stub TTL 0); SEMI: every (name|literal, listener) pair through the real TcpProxyHandler incl. names containing the UDP magic string; non-trivial = distinct destination / cut pattern / history with >= 2 distinct (host,port) requests / dial request")
+    rep.finish("IX/DET: destinations {5 IPv4, 5 IPv6} x boundary ports, every domain length 1..=256 (ASCII and multi-byte), almost-addresses, port sweep (thorough: all 65536 ports x 3 address types) through the real Client::create_proxy_stream and the real server-side parser; destination header cut into <=3 frames at every position; UDP associations: the target named in the initial request written by the real Client::create_udp_proxy (in-memory dialer seam) for 17 (23) address shapes x boundary ports; BX: every resolve/age/clear history up to depth 3 (4) on both resolver branches, plus every history of depth 5 (6) over {resolve gamma, resolve delta, gamma's DNS answer changes, age, clear} (stub TTL 0), names with AAAA answers of every shape (::1, ::a.b.c.d, ::, IPv4-mapped, global, dual-stack); SEMI: every (name|literal, listener) pair through the real TcpProxyHandler incl. names containing the UDP magic string; non-trivial = distinct destination / cut pattern / history with >= 2 distinct (host,port) requests / dial request")
 }
